@@ -222,9 +222,9 @@ def apply_steps(graph: NxMixedGraph, steps: list[list]) -> None:
 _BUILDER: Any = None
 
 
-def _remote_build(h: dict[str, Any]) -> NxMixedGraph:
-    """Build the graph in another interpreter (other PYTHONHASHSEED) and receive it through pickle -- what a graph
-    handed to a multiprocessing worker or loaded from disk has been through."""
+def _remote_build(h: dict[str, Any]) -> Any:
+    """Build the graph (or, for {"recipe": ...}, the expression) in another interpreter (other PYTHONHASHSEED) and
+    receive it through pickle -- what an object handed to a multiprocessing worker or loaded from disk has been through."""
     global _BUILDER
     import base64
     import json
